@@ -82,8 +82,9 @@ def _inline_call(fraw, bb, hraw):
     for r in hm.get("inlined_rets", []):
         fm["inlined_rets"].append({"slot": r["slot"] + off, "dest": (r["dest"] + off) if r["dest"] is not None else None, "helper": r["helper"]})
     fm["blocks"][bb]["t"] = {"k": "goto", "t": boff, "line": line, "inlined": hraw["path"]}
-    for blk in hm["blocks"]:
+    for bi, blk in enumerate(hm["blocks"]):
         nb = _shift(copy.deepcopy(blk), off, boff, promo_off)
+        nb.setdefault("src", [hraw["path"], bi])  # where this block really lives (one place, however often it is spliced in)
         tk = nb["t"].get("k")
         if tk == "ret":
             if dest is not None:
